@@ -450,6 +450,33 @@ def lazy_misuse(fn):
                     binds.setdefault(t.id, []).append(None)
     lazy_names = {k for k, v in binds.items() if len(v) == 1 and v[0] is not None and _is_lazy(v[0], set())}
     out = []
+    # a one-shot iterator bound to a name is exhausted by its first consumer: a second use, or a use inside something that is
+    # evaluated repeatedly (a lambda, a comprehension element, a loop body), sees it empty
+    parents = {}
+    for n in ast.walk(fn):
+        for c in ast.iter_child_nodes(n):
+            parents[id(c)] = n
+    for name in sorted(lazy_names):
+        uses = [n for n in ast.walk(fn) if isinstance(n, ast.Name) and n.id == name and isinstance(n.ctx, ast.Load)]
+        repeated = []
+        for u in uses:
+            cur, prev = u, None
+            while id(cur) in parents:
+                prev, cur = cur, parents[id(cur)]
+                if isinstance(cur, ast.Lambda):
+                    repeated.append(u)
+                    break
+                if isinstance(cur, (ast.For, ast.While)) and prev in cur.body:
+                    repeated.append(u)
+                    break
+                if isinstance(cur, (ast.ListComp, ast.SetComp, ast.GeneratorExp, ast.DictComp)) and \
+                        not (cur.generators and prev is cur.generators[0] and any(x is u for x in ast.walk(cur.generators[0].iter))):
+                    repeated.append(u)
+                    break
+        if repeated:
+            out.append((repeated[0], f"the one-shot iterator `{name}` is consumed inside something evaluated repeatedly (lambda / loop / comprehension)"))
+        elif len(uses) >= 2:
+            out.append((uses[1], f"the one-shot iterator `{name}` is consumed {len(uses)} times"))
 
     def truth(e, where):
         if _is_lazy(e, lazy_names):
